@@ -278,8 +278,40 @@ def snapshot(ses, objs):
     return out
 
 
+_NOVALUE = object()
+
+
+def perturb(rng, x):
+    """a float (array) that differs from x only slightly: relative change < 1e-5, one ulp, or a trace value (< 1e-8)
+    changed by some factor -- kept values must come back EXACTLY (bitwise), not 'close enough'"""
+    how = rng.choice(["rel", "ulp", "trace", "abs"])
+    if isinstance(x, np.ndarray):
+        y = np.array(x, dtype=float, copy=True)
+        if y.size == 0:
+            return None
+        idx = [rng.randrange(y.size) for _ in range(rng.randint(1, min(3, y.size)))]
+        for i in idx:
+            y.flat[i] = perturb(rng, float(y.flat[i]))
+        return y if y.tobytes() != np.asarray(x, dtype=float).tobytes() else None
+    if x != x or abs(x) == float("inf"):
+        return 0.0
+    if how == "ulp":
+        return float(np.nextafter(x, x + 1.0 if rng.random() < 0.5 else x - 1.0))
+    if how == "rel" and x != 0.0:
+        return x * (1.0 + rng.choice([1e-6, -3e-7, 1e-9, 2e-12]))
+    if how == "trace" or x == 0.0:
+        return rng.choice([1e-9, 3e-12, 5e-15]) if abs(x) >= 1e-8 or x == 0.0 else x * rng.choice([0.5, 3.0, 10.0])
+    return x + rng.choice([1e-10, -1e-13])
+
+
 def new_value(rng, cur):
     """a different value of a (possibly different) kind"""
+    if isinstance(cur, (float, np.floating)) and not isinstance(cur, bool) and rng.random() < 0.3:
+        return perturb(rng, float(cur))
+    if isinstance(cur, np.ndarray) and cur.dtype.kind == "f" and cur.size and rng.random() < 0.3:
+        v = perturb(rng, cur)
+        if v is not None:
+            return v
     if isinstance(cur, (bool, np.bool_)):
         return not cur
     if isinstance(cur, (int, np.integer)):
@@ -305,7 +337,7 @@ def new_value(rng, cur):
     return None
 
 
-def do_set(ses, t, only=None, custom=False):
+def do_set(ses, t, only=None, custom=False, value=_NOVALUE):
     """one plain parameter assignment on the real object + the model request"""
     rng = ses.rng
     from armi.reactor.parameters import NoDefault
@@ -327,7 +359,9 @@ def do_set(ses, t, only=None, custom=False):
         return False
     if cur is NoDefault:
         ses.ctx.count("assign a never-assigned (NoDefault) parameter")
-    if rng.random() < 0.08 and cur is not NoDefault:
+    if value is not _NOVALUE:
+        v = value
+    elif rng.random() < 0.08 and cur is not NoDefault:
         v = None
     else:
         v = new_value(rng, cur)
@@ -475,6 +509,17 @@ def seed_nested(ses, objs):
         ses.nested_names.add(pd.name)
         done += 1
     ses.ctx.count("nested (ragged / list-of-arrays / dict-of-arrays) payloads seeded", done)
+    # float arrays with trace entries (number-density like), on blocks and components
+    arr = 0
+    for o, pd in [(o, pd) for o, pd in cands if pd.name in ("detailedNDens", "pinNDens", "mgFlux", "adjMgFlux")
+                  and pd.name not in ses.nested_names and ses.val(o, pd) is None]:
+        if rng.random() < 0.7:
+            try:
+                o.p[pd.name] = np.array([1.2e-3, 5e-9, 0.0, 2.5e-12, 0.0234, 7e-17]) * (1 + arr)
+                arr += 1
+            except Exception:
+                pass
+    ses.ctx.count("float arrays with trace values seeded", arr)
 
 
 def do_cache(ses, t):
@@ -637,6 +682,44 @@ def directed_nested_keep(ses, allobjs):
     more = [q for q in rng.sample(pds, min(len(pds), 3))]
     scope(ses, allobjs, 1, root=outer, keep=[pd] + [q for q in more if q is not pd], script=outer_body)
     ses.ctx.count("directed: kept parameter assigned before an inner scope")
+
+
+def directed_kept_perturbation(ses, allobjs):
+    """a KEPT float / float-array parameter is assigned a value that differs from the entry value only slightly (same
+    shape; relative change < 1e-5, one ulp, trace entries) -- possibly with an inner scope in between; after the
+    scope it must hold exactly the in-scope value"""
+    rng = ses.rng
+    cands = []
+    for o in allobjs:
+        for pd in ses.pdefs(o):
+            v = ses.val(o, pd)
+            if pd.name in ses.skipnames or pd.name in ses.nested_names or not default_setter(pd):
+                continue
+            if (isinstance(v, np.ndarray) and v.dtype.kind == "f" and v.size) or \
+                    (isinstance(v, (float, np.floating)) and v == v and abs(v) < 1e300):
+                cands.append((o, pd, isinstance(v, np.ndarray)))
+    arrays = [c for c in cands if c[2]]
+    if not cands:
+        return
+    t, pd, _ = rng.choice(arrays) if arrays and rng.random() < 0.7 else rng.choice(cands)
+    chain, x = [], t
+    while x is not None and any(x is o for o in allobjs):
+        chain.append(x); x = x.parent
+    kept = rng.random() < 0.75
+
+    def outer_body():
+        v = perturb(rng, ses.val(t, pd) if isinstance(ses.val(t, pd), np.ndarray) else float(ses.val(t, pd)))
+        if v is None or not do_set(ses, t, only=pd, value=v):
+            return
+        if rng.random() < 0.4:
+            scope(ses, allobjs, 2, root=rng.choice(chain), keep=[], script=lambda: do_set(ses, rng.choice(allobjs)))
+        if rng.random() < 0.3:
+            v2 = perturb(rng, ses.val(t, pd) if isinstance(ses.val(t, pd), np.ndarray) else float(ses.val(t, pd)))
+            if v2 is not None:
+                do_set(ses, t, only=pd, value=v2)
+
+    scope(ses, allobjs, 1, root=rng.choice(chain), keep=[pd] if kept else [], script=outer_body)
+    ses.ctx.count("directed: slightly perturbed " + ("kept" if kept else "non-kept") + " float/array parameter")
 
 
 def do_copies(ses, allobjs, root=None):
@@ -900,7 +983,9 @@ def run_session(ctx, seq_seed, batch, nscopes):
         with common.quiet():
             for _ in range(nscopes):
                 k = rng.random()
-                if k < 0.25:
+                if k < 0.15:
+                    directed_kept_perturbation(ses, allobjs)
+                elif k < 0.3:
                     directed_nested_keep(ses, allobjs)
                 elif k < 0.7:
                     scope(ses, allobjs, 1)
